@@ -563,7 +563,9 @@ struct MetaSys : World {
 		if (d.code == M_NEW) return fmt("new %s%s -> slot %d", kname[d.b], d.c == 1 ? "(count=MAX-1)" : (d.c == 2 ? "(count=2^32+1)" : ""), d.a);
 		return fmt("%s(%d,%d)", mopn[d.code], d.a, d.b);
 	}
-	~MetaSys() { if (no) delete no; }
+	~MetaSys() { if (no) { mpt::mpt_notify_fini(no); free(no); } }
+	// MPT_NOTIFY_INIT: the C functions expect empty (NULL) slot arrays, not the C++ default buffers
+	static mpt::notify *newnotify() { mpt::notify *n = (mpt::notify *) calloc(1, sizeof(mpt::notify)); n->_sysfd = -1; return n; }
 	int grpidx(int g) const { return g ? grp2o : grpo; }
 	mpt::item_group *grpp(int o) const { return static_cast<mpt::item_group *>((metatype *) objs[o].ptr); }
 	RArr *rap(int a) const { return (RArr *) objs[rao[a]].ptr; }
@@ -1155,7 +1157,7 @@ struct MetaSys : World {
 			break; }
 		case M_NADD: {
 			sig = "notify_add|stream";
-			if (!no) no = new mpt::notify;
+			if (!no) no = newnotify();
 			if (LIB(mpt::mpt_notify_add(no, POLLIN, (mpt::input *) objs[s].ptr)) < 0) { ++C.spurious; break; }
 			--objs[s].raw; nreg.push_back(s); nfd.push_back(objs[s].fd0);   // the notifier took over the caller's reference
 			break; }
@@ -1184,7 +1186,7 @@ struct MetaSys : World {
 		case M_NCONFIG: {
 			int o = so[s];
 			sig = std::string("notify_config|") + (registered(o) ? "already-registered" : "new-input");
-			if (!no) no = new mpt::notify;
+			if (!no) no = newnotify();
 			// global configuration element "mpt.connect" refers to the input for the duration of the call (borrowed, restored afterwards)
 			mpt::path p; p.set("mpt.connect");
 			metatype *ce = LIB(mpt::mpt_config_global(&p));
